@@ -21,12 +21,13 @@ def run(ctx):
     ctx.assumptions += ["interleaving model; target queues are not changed after activation (the library crashes on that)"]
     h = ctx.harness("c03_hier")
     drv = ctx.driver()
-    runs = [(4, 300), (6, 300), (8, 200), (3, 400)] if not ctx.thorough else [(4, 3000), (6, 2000), (8, 1500), (12, 1000), (3, 3000), (5, 2000), (7, 1500), (2, 3000)]
+    # (threads, ops, bottom): bottom 0 = serial queue, 1 = workloop
+    runs = [(4, 300, 0), (6, 300, 0), (8, 200, 0), (3, 400, 0), (4, 300, 1), (6, 200, 1)] if not ctx.thorough else [(4, 3000, 0), (6, 2000, 0), (8, 1500, 0), (12, 1000, 0), (3, 3000, 0), (5, 2000, 0), (7, 1500, 0), (2, 3000, 0), (4, 2000, 1), (8, 1500, 1), (12, 1000, 1)]
     procs, paths, items = [], [], 0
-    for i, (thr, ops) in enumerate(runs):
+    for i, (thr, ops, bottom) in enumerate(runs):
         path = os.path.join(ctx.outdir, "hier-%d.txt" % i)
         f = open(path, "w")
-        cmd = [h, str(ctx.seed * 100 + i), str(thr), str(ops)]
+        cmd = [h, str(ctx.seed * 100 + i), str(thr), str(ops), str(bottom)]
         procs.append((subprocess.Popen(cmd, stdout=f, stderr=subprocess.DEVNULL), f, path, cmd))
     for p, f, path, cmd in procs:
         try:
@@ -39,6 +40,8 @@ def run(ctx):
             ctx.violation("hierarchy workload made no progress: %s" % head[:1], {"cmd": cmd}, signature="hier:stuck")
         elif any(l.startswith("ORACLE VIOL") for l in head):
             ctx.violation("hierarchy oracle: " + head[0][:300], {"cmd": cmd}, signature="hier:" + head[0][12:60])
+        elif rc != 0 or not any(l.startswith("ORACLE ok") for l in head):
+            ctx.violation("hierarchy workload died without a verdict (exit status %s): the library trapped or crashed" % rc, {"cmd": cmd}, signature="hier:crash")
         else:
             m = re.search(r"items=(\d+)", " ".join(head)); items += int(m.group(1)) if m else 0
         paths.append(path)
